@@ -6,6 +6,7 @@
 #include "common.hpp"
 #include "cov.hpp"
 
+#include <algorithm>
 #include <memory>
 #include <sstream>
 
@@ -106,7 +107,25 @@ struct ISlot {
     virtual void write(const std::vector<uint64_t> & coord, unsigned comp, double v) = 0;
     virtual std::vector<double> read_all(const Model & m) const = 0;
     virtual std::string dump() const = 0;
+    // every size-like configuration along the get_backend() chain (extents of the storage order, length of the array)
+    virtual std::vector<std::vector<uint64_t>> shape() const = 0;
 };
+
+template <class L>
+void shape_of(const typename L::owning_data_t & o, std::vector<std::vector<uint64_t>> & out)
+{
+    if constexpr (requires { o.get_configuration()[0]; }) {
+        auto c = o.get_configuration();
+        std::vector<uint64_t> v;
+        for (size_t i = 0; i < c.size(); ++i) {
+            v.push_back(c[i]);
+        }
+        out.push_back(v);
+    }
+    if constexpr (!L::is_initial) {
+        shape_of<typename L::backend_t>(o.get_backend(), out);
+    }
+}
 
 template <class B>
 struct traits;
@@ -233,6 +252,12 @@ struct Slot : ISlot {
         f.dump(os);
         return os.str();
     }
+    std::vector<std::vector<uint64_t>> shape() const override
+    {
+        std::vector<std::vector<uint64_t>> out;
+        shape_of<B>(f.backend(), out);
+        return out;
+    }
 };
 
 template <class F>
@@ -290,6 +315,26 @@ Verdict check_all(const Pool & p, size_t step, const char * what)
     for (size_t s = 0; s < p.impl.size(); ++s) {
         if (!p.impl[s] || !p.model[s]) {
             continue;
+        }
+        {
+            // reported extents and storage length follow the model (a stale size after an assignment would show here)
+            const Model & m = *p.model[s];
+            std::vector<std::vector<uint64_t>> want;
+            uint64_t len = m.cells();
+            if (m.type == 1 || m.type == 2) {
+                uint64_t mx = *std::max_element(m.ext.begin(), m.ext.end()), side = 1;
+                while (side < mx) {
+                    side *= 2;
+                }
+                len = side * side;
+            }
+            if (m.type != 6) {
+                want.push_back(m.ext);
+            }
+            want.push_back({len});
+            if (p.impl[s]->shape() != want) {
+                return "after step " + std::to_string(step) + " (" + what + "): slot " + std::to_string(s) + " [" + TNAMES[p.impl[s]->type] + "] reports extents / storage length that differ from the model's";
+            }
         }
         auto got = p.impl[s]->read_all(*p.model[s]);
         digest("history", got.data(), got.size() * sizeof(double));
